@@ -7,6 +7,7 @@ from hypothesis import strategies as st
 
 from .. import arr as A
 from .. import unit as U
+from .. import modelslice as MS
 from ..core import sstr, Failure, drive, drive_enum
 from ..gen import arrays as G
 
@@ -68,6 +69,8 @@ def check_unit(case, rec):
         x == 0 and not (case["arrays"][1]["mask"] or [0] * len(case["arrays"][1]["data"]))[i]
         for i, x in enumerate(case["arrays"][1]["data"]))
     rec.label("cmd:" + cmd)
+    if case.get("weights_as"):
+        rec.label("weights_as_numpy_scalars:" + case["weights_as"])
     if o.ref_kind == "expect":
         rec.label("error_case:" + o.expect, sample=case)
     if mixed_int_first:
@@ -174,10 +177,24 @@ def error_case(draw):
     return {"cmd": cmd, "params": params, "arrays": [], "shape": [0], "fault": "empty"}
 
 
-PARTS = {"unit": check_unit}
+def check_model(model, rec):
+    """Whole models of arithmetic commands over shared integer and float columns read from a file."""
+    return MS.model_failures(model, rec, lambda sig, cmd: cmd in CMDS, "model")
+
+
+PARTS = {"unit": check_unit, "model": check_model}
+
+
+@st.composite
+def unit_cases(draw):
+    case = draw(G.unit_case(CMDS, max_rank=2, dtypes=("float64", "int64", "float64", "int64", "float32", "int32"), tiny=True))
+    if case["cmd"] in WEIGHTED and draw(st.integers(0, 2)) == 0:
+        case["weights_as"] = draw(st.sampled_from(["float32", "float64", "float16", "int64", "int32"]))
+    return case
 
 
 def run_shard(ctx, rec):
+    drive(ctx, rec, "model", MS.model_cases(cmds=CMDS), check_model, ctx.n(1000, 20000))
     drive_enum(ctx, rec, "unit", matrix_cases(ctx), check_unit, exhaustive=True, tag="unit/dtype_order_matrix")
-    drive(ctx, rec, "unit", G.unit_case(CMDS, max_rank=2, dtypes=("float64", "int64", "float64", "int64", "float32", "int32"), tiny=True), check_unit, ctx.n(3000, 100000))
+    drive(ctx, rec, "unit", unit_cases(), check_unit, ctx.n(3000, 100000))
     drive(ctx, rec, "unit", error_case(), check_unit, ctx.n(600, 12000), tag="unit/errors")
